@@ -127,6 +127,10 @@ class PathSum:
             core, pol = canon_test(e, pol)
             if isinstance(core, ast.Compare) and len(core.ops) == 1 and isinstance(core.ops[0], (ast.Is, ast.IsNot)) and isinstance(core.comparators[0], ast.Constant) and core.comparators[0].value is None:
                 continue  # `x is None` and `not x` are different tests
+            if isinstance(core, ast.Constant):
+                if bool(core.value) != pol:
+                    return False  # a test on a value that is a constant on this path, decided the other way
+                continue
             if isinstance(core, ast.BoolOp):
                 compound.append((core, pol))
                 continue
